@@ -423,6 +423,27 @@ pub fn run(ctx: &mut Ctx) {
             let planted = super::c10::plant(nd.term(), &mut rng);
             *nd.term_mut() = planted;
         }
+        if i % 37 == 0 {
+            // very long names (127..300 characters): the first named atom of the value is stretched
+            fn stretch(t: &mut TD, len: usize, done: &mut bool) {
+                if *done {
+                    return;
+                }
+                if t.k.shape() == Shape::AtomNamed {
+                    let base: Vec<char> = if t.name.is_empty() { vec!['a'] } else { t.name.chars().filter(|c| *c != '-').collect() };
+                    let base = if base.is_empty() { vec!['a'] } else { base };
+                    t.name = (0..len).map(|j| base[j % base.len()]).collect();
+                    *done = true;
+                    return;
+                }
+                for k in t.kids.iter_mut() {
+                    stretch(k, len, done);
+                }
+            }
+            let len = [127usize, 128, 129, 200, 300][(i / 37 % 5) as usize];
+            stretch(nd.term_mut(), len, &mut false);
+            ctx.report.bump("values-with-a-name-of-127..300-characters");
+        }
         ctx.report.nontrivial(&format!("{}|{}", f.name(), nd.canon()));
         if i % 97 == 0 {
             let toks = tokens(f, &nd, &mut Sugar::default());
